@@ -208,6 +208,58 @@ def r18_6_set_value_copies(ctx, rid='R18.6'):
     r.done()
 
 
+NODE_TAG_OF_CLASS = {'MappingNode': {CORE + 'map'}, 'SequenceNode': {CORE + 'seq'},
+                     'ScalarNode': {CORE + t for t in ('str', 'int', 'float', 'bool', 'null')}}
+
+
+def r14_11_built_nodes(ctx, rid='R14.11'):
+    """nodes that Node/the transforms build carry the plain core tag of their kind (what the recogniser and PyYAML expect)"""
+    P = ctx.P
+    r = ctx.rule(rid, 'every node built in helpers.py carries the plain core tag of its kind (MappingNode: map, SequenceNode: seq, '
+                      'ScalarNode: a core scalar tag, scalar_type_to_tag[..] or the tag of the node it replaces); is_empty and seq_items '
+                      'read the whole value list', floor=10)
+    m = P.module('yatiml.helpers')
+    for fi in m.functions.values():
+        f = None
+        for c in walk_function(fi.node):
+            if isinstance(c, ast.Call) and norm(c.func) in ('yaml.MappingNode', 'yaml.SequenceNode', 'yaml.ScalarNode',
+                                                           'MappingNode', 'SequenceNode', 'ScalarNode'):
+                f = f or S.fn_of(fi)
+                if not f.live(c):
+                    continue
+                cls_ = norm(c.func).split('.')[-1]
+                tag = c.args[0] if c.args else G.kwarg(c, 'tag')
+                srcs = _reaching_texts(f, tag) if tag is not None else {'<missing>'}
+                ok = True
+                for s_ in srcs:
+                    try:
+                        lit = ast.literal_eval(s_)
+                    except Exception:
+                        lit = None
+                    if isinstance(lit, str):
+                        ok = ok and lit in NODE_TAG_OF_CLASS[cls_]
+                    else:
+                        ok = ok and cls_ == 'ScalarNode' and (s_.startswith('scalar_type_to_tag[') or s_.endswith('yaml_node.tag'))
+                r.check(ok, '%s: %s(%s, ..)' % (fi.qual, cls_, sorted(srcs)), '%s:built-node-tag:%s' % (fi.key, cls_), fi.loc(c),
+                        '%s builds a %s tagged %s: the loader/recogniser (plain seq/map tag test, exact scalar tags) and a plain YAML '
+                        'parser do not take it for a %s' % (fi.qual, cls_, sorted(srcs), cls_))
+    e = fn(P, NODE + 'is_empty')
+    rets = e.returns()
+    r.check(len(rets) == 1 and rets[0].value is not None and G.canon_atom(rets[0].value) == ('self.yaml_node.value', False),
+            'is_empty() == (len(self.yaml_node.value) == 0)', e.key('emptiness'), e.loc(),
+            'is_empty does not answer whether the value list is empty (%s)' % (norm(rets[0].value) if rets and rets[0].value is not None else None))
+    q = fn(P, NODE + 'seq_items')
+    rets = q.returns()
+    okq = len(rets) == 1 and rets[0].value is not None and q.alpha.text(rets[0].value) in (
+        'list(map(Node, self.yaml_node.value))', '[Node(<each:self.yaml_node.value>) for <each:self.yaml_node.value> in self.yaml_node.value]')
+    if not okq and len(rets) == 1 and isinstance(rets[0].value, ast.ListComp):
+        lc = rets[0].value
+        okq = len(lc.generators) == 1 and not lc.generators[0].ifs and norm(lc.generators[0].iter) == 'self.yaml_node.value' \
+            and norm(lc.elt) == 'Node(%s)' % norm(lc.generators[0].target)
+    r.check(okq, 'seq_items wraps every item, in order', q.key('all-items'), q.loc(), 'seq_items does not return a Node for every item in order')
+    r.done()
+
+
 def r14_3_positions(ctx):
     P = ctx.P
     r = ctx.rule('R14.3', 'position discipline of the mapping accessors: set on an existing key stores at the found index, a new '
@@ -362,18 +414,32 @@ def r14_4_matches_total(ctx, rid='R14.4'):
             'for str (and other) nodes matches() answers `%s` instead of comparing the node text with the default itself: a string '
             'attribute whose text merely spells a non-string default (\'None\', \'0\', \'True\') is dropped from the dump and comes '
             'back as that default' % shown)
-    # bool polarity
+    # bool polarity: in the bool arm every answer is (a) the false-spellings test under `default is False`, (b) the true-spellings
+    # test under `default is True`, or (c) the constant False (the default is not a bool)
+    seen = set()
     for ret in arms.get(CORE + 'bool', []):
-        gt = f.guard_texts(ret)
+        gs = {G.canon_atom(g, p) for g, p in f.guards(ret)}
         words = {const_str(x) for x in ast.walk(ret.value) if isinstance(x, ast.Constant) and isinstance(x.value, str)} if ret.value is not None else set()
-        if '%s is False' % df in gt:
+        if ('%s is False' % df, True) in gs:
+            seen.add(False)
             r.check('false' in words and not (words & {'true', 'yes', 'y', 'on'}), 'default False matches only false-spellings %s' % sorted(words),
                     f.key('bool-false-arm'), f.loc(ret), 'under `default is False` the node text is compared with %s: a True value '
                     'would be dropped from the dump and come back as False' % sorted(words))
-        elif '%s is True' % df in gt:
+        elif ('%s is True' % df, True) in gs:
+            seen.add(True)
             r.check('true' in words and not (words & {'false', 'no', 'n', 'off'}), 'default True matches only true-spellings %s' % sorted(words),
                     f.key('bool-true-arm'), f.loc(ret), 'under `default is True` the node text is compared with %s: a False value '
                     'would be dropped from the dump and come back as True' % sorted(words))
+        else:
+            r.check(isinstance(ret.value, ast.Constant) and ret.value.value is False, 'a bool node never matches a default that is '
+                    'neither True nor False', f.key('bool-other-default'), f.loc(ret), 'a bool node is considered equal to a default that '
+                    'is neither True nor False (answer `%s` under %s): e.g. an Optional[bool] = None attribute holding a bool is dropped '
+                    'from the dump and comes back as None' % (norm(ret.value) if ret.value is not None else None,
+                                                              sorted(t for t, p in gs if df in t)))
+    if CORE + 'bool' in arms:
+        r.check(seen == {True, False}, 'the bool arm distinguishes default True from default False', f.key('bool-arms'), f.loc(),
+                'the bool arm of matches() has no test for default %s: a bool attribute equal to that default is never removed / '
+                'the other spelling set is applied to it' % sorted({True, False} - seen))
     # null arm
     for ret in arms.get(CORE + 'null', []):
         r.check(ret.value is not None and norm(ret.value) == '%s is None' % df, 'a null node matches only the default None', f.key('null-arm'),
@@ -622,6 +688,14 @@ def r15_2_do_nothing_exits(ctx, rid='R15.2'):
             r.check(bool(pres) and f.cfg.must_pass(f.cfg.entry, wn, pres), '%s: write %s is dominated by has_attribute(%s)'
                     % (name, norm(w)[:30], attr), f.key('write-without-presence:%s' % norm(w)[:30]), f.loc(w),
                     '%s writes the node without having checked that the attribute exists' % name)
+        # ... and of the expected kind
+        kind = 'is_sequence' if name.startswith('seq_') else 'is_mapping'
+        want = 'self.get_attribute(%s).%s()' % (attr, kind)
+        kinds = S.branch_nodes(f, lambda a: any(p and f.alpha.text(g) == want for g, p in a))
+        okk = bool(kinds) and all(f.cfg.must_pass(f.cfg.entry, wn, kinds) for w, wn in ws)
+        r.check(okk, '%s: every write is dominated by %s' % (name, want), f.key('write-without-kind-check'), f.loc(),
+                '%s modifies the node although the attribute may not be a %s (documented: silently do nothing): a scalar or a '
+                'collection of the other kind is torn apart or raises' % (name, 'sequence' if kind == 'is_sequence' else 'mapping'))
     r.done()
 
 
@@ -725,6 +799,29 @@ def r15_5_decisions(ctx):
                 f.key('short-form-condition'), f.loc(a), 'seq_attribute_to_map uses the short form under %s' % sorted(at))
     r.check(bool(shorts) and bool(longs), 'seq_attribute_to_map has a short and a long form', f.key('forms'), f.loc(),
             'seq_attribute_to_map lost its short or long form')
+    if lo2 is not None:
+        through = {f.nid(a) for a in shorts + longs}
+        r.check(f.cfg.must_pass(f.first_nid(lo2.body[0]), f.nid(lo2.iter), through) and whole_collection_loop(lo2),
+                'every item of the sequence yields exactly one entry of the new mapping', f.key('every-item-kept'), f.loc(lo2),
+                'seq_attribute_to_map can pass an item without adding it to the new mapping: items are silently dropped')
+    for name in ('index_attribute_to_map', 'map_attribute_to_index', 'map_attribute_to_seq'):
+        g = fn(P, NODE + name)
+        lo3 = _pair_loop(g)
+        if lo3 is None:
+            continue
+        apps3 = {g.nid(n) for n in ast.walk(lo3) if isinstance(n, ast.Call) and isinstance(n.func, ast.Attribute) and n.func.attr == 'append'
+                 and not any(isinstance(x, (ast.For, ast.While, ast.ListComp)) and x is not lo3 and any(y is x for y in S._ancestors_list(n))
+                             for x in ast.walk(lo3))}
+        apps3 = {a for a in apps3 if a is not None}
+        if not apps3:
+            continue
+        # appends to the *result* list: those executed on the paths of the last statement group
+        skips = [x for st in lo3.body for x in ast.walk(st) if isinstance(x, (ast.Break, ast.Continue))
+                 and not any(isinstance(y, (ast.For, ast.While)) and y is not lo3 and any(z is y for z in S._ancestors_list(x))
+                             for y in ast.walk(lo3))]
+        r.check(not skips and g.cfg.must_pass(g.first_nid(lo3.body[0]), g.nid(lo3.iter), apps3), '%s: every entry of the mapping yields an '
+                'entry of the result (no break/continue; each pass appends)' % name, g.key('every-entry-visited'), g.loc(lo3),
+                '%s leaves its loop over the entries early: later entries are dropped' % name)
     # map_attribute_to_seq: wrap
     f = fn(P, NODE + 'map_attribute_to_seq')
     va = f.fi.params[3]
@@ -799,6 +896,10 @@ def r16_3_decisions(ctx):
     recvs = {f.alpha.text(c.func.value) for c in f.calls('is_scalar') if isinstance(c.func, ast.Attribute)}
     r.check(recvs == {W}, 'require_scalar inspects Node(self.yaml_node)', f.key('wrapped-node'), f.loc(),
             'require_scalar does not look at this node')
+    n_untyped = sum(1 for rs in f.raises() if (ap, False) in {f.alpha.atom(g, p) for g, p in f.guards(rs)})
+    r.check(n_untyped >= 1 and len(f.raises()) > n_untyped, 'require_scalar can reject both without and with types',
+            f.key('rejects'), f.loc(), 'require_scalar has no raise for the %s case: every node is accepted'
+            % ('untyped' if n_untyped == 0 else 'typed'))
     for rs in f.raises():
         gt = {f.alpha.atom(g, p) for g, p in f.guards(rs)}
         none_given = (ap, False) in gt
